@@ -29,6 +29,8 @@ DIALECT_SPECIFIC = [
     ("tsql", "select a into #tmp from t"), ("hive", "insert overwrite table t partition (d = '1') select a from s"),
     ("ansi", "select '{{' from t"), ("ansi", "select count(*) {# from t"), ("ansi", "select {% a %} from t"), ("redshift", "analyze (t)"),
     ("exasol", "create view v as select a from t"), ("exasol", "insert into t select id FROM table tab1"), ("clickhouse", "select a from t where b in (select c from u)"),
+    ("tsql", "MERGE TOP (1) t USING s ON t.a=s.a WHEN NOT MATCHED THEN INSERT (a) VALUES (s.a);"),
+    ("tsql", "MERGE TOP (1) t USING s ON t.a=s.a WHEN MATCHED THEN UPDATE SET t.a = s.a;"),
     ("oracle", "select a from t where rownum < 2"), ("teradata", "sel a from t"), ("duckdb", "from t select a"),
 ]
 
